@@ -7,21 +7,41 @@
 From LSP Require Import Base MM Sem SemThy Denote PtyEq RoundTrip HookFrag Image ImageThy Link MMRound Catalog.
 From Gen Require Import MMData PkgData Known.
 
-Definition cov : list string * list pty := Eval vm_compute in iter_shrink Sg 16 (cover0 Sg).
+(* the null permission: [NLall] = the Python annotations alone (an Optional member may always be null); [NLmm mm] = the metamodel's
+   (only null-admitting properties may carry an explicit null).  The second reading covers more hooks: key-presence dispatch between
+   classes that differ in which members are REQUIRED is only right when an optional member cannot be an explicit null. *)
+Definition NLall (c k : string) : bool := true.
+Definition cov_py : list string * list pty := Eval vm_compute in iter_shrink Sg NLall 16 (cover0 Sg).
+(* the metamodel's null-permission table, computed once; [NLm] is LSP.Link.NLmm on it (nl_eq) *)
+Definition nltab : list (string * list string) := Eval vm_compute in nl_table mm.
+Definition NLm : string -> string -> bool := NLtab nltab.
+Lemma nl_eq : NLmm mm = NLm.
+Proof. unfold NLmm, NLm. apply f_equal. vm_compute. reflexivity. Qed.
+Definition cov : list string * list pty := Eval vm_compute in iter_shrink Sg NLm 16 (cover0 Sg).
 Definition uncovered_classes : list string := Eval vm_compute in filter (fun c => negb (mem c (fst cov))) (map fst (classes Sg)).
 Definition uncovered_unions : list pty := Eval vm_compute in filter (fun u => negb (existsb (pty_eqb u) (snd cov))) (map fst (uhooks Sg)).
 
 Theorem cover_table_ok : table_ok Sg (fst cov) (snd cov) = true.
 Proof. vm_compute. reflexivity. Qed.
-Theorem cover_hooks_ok : hooks_ok Sg (fst cov) (snd cov) = true.
+Theorem cover_hooks_ok : hooks_ok Sg NLm (fst cov) (snd cov) = true.
 Proof. vm_compute. reflexivity. Qed.
 
 (* every Python-valid JSON value of a covered annotation parses (with enough fuel) into a value OF THAT TYPE which serialises
    back to the input up to null-valued members — for all values, all sizes, no bound *)
 Theorem covered_parse_roundtrip (pystr : json -> string) : forall P j,
-  okty Sg (fst cov) (snd cov) P = true -> pvalid Sg P j ->
+  okty Sg (fst cov) (snd cov) P = true -> pvalid Sg NLm P j ->
   exists n o j', structure Sg pystr n P j = Ok o /\ has_type Sg P o /\ unstr Sg n (Some P) o = Ok j' /\ RoundTrip.NEq j j'.
-Proof. exact (covered_roundtrip Sg pystr (fst cov) (snd cov) cover_table_ok cover_hooks_ok). Qed.
+Proof. exact (covered_roundtrip Sg pystr NLm (fst cov) (snd cov) cover_table_ok cover_hooks_ok). Qed.
+
+(* the same under the Python-only reading (explicit nulls allowed at every Optional member), on its smaller covered part *)
+Theorem cover_py_table_ok : table_ok Sg (fst cov_py) (snd cov_py) = true.
+Proof. vm_compute. reflexivity. Qed.
+Theorem cover_py_hooks_ok : hooks_ok Sg NLall (fst cov_py) (snd cov_py) = true.
+Proof. vm_compute. reflexivity. Qed.
+Theorem covered_parse_roundtrip_py (pystr : json -> string) : forall P j,
+  okty Sg (fst cov_py) (snd cov_py) P = true -> pvalid Sg NLall P j ->
+  exists n o j', structure Sg pystr n P j = Ok o /\ has_type Sg P o /\ unstr Sg n (Some P) o = Ok j' /\ RoundTrip.NEq j j'.
+Proof. exact (covered_roundtrip Sg pystr NLall (fst cov_py) (snd cov_py) cover_py_table_ok cover_py_hooks_ok). Qed.
 
 Theorem cover_not_shrunk :
   forallb (fun c => mem c expected_uncovered_classes || negb (mem c cover_base_classes)) uncovered_classes
@@ -41,13 +61,13 @@ Proof. vm_compute. reflexivity. Qed.
 Theorem mm_covered_roundtrip (pystr : json -> string) : forall T j p k n,
   cvalid mm T j -> wfp p = true -> smatch mm Sg alias_objects k (py_of mm n T) p = true -> okty Sg (fst cov) (snd cov) p = true ->
   exists n' o j', structure Sg pystr n' p j = Ok o /\ has_type Sg p o /\ unstr Sg n' (Some p) o = Ok j' /\ RoundTrip.NEq j j'.
-Proof. exact (mm_roundtrip mm Sg alias_objects plain_classes pystr (fst cov) (snd cov) cover_image cover_names_ok cover_fields_ok2 cover_table_ok cover_hooks_ok). Qed.
+Proof. pose proof cover_hooks_ok as H. rewrite <- nl_eq in H. exact (mm_roundtrip mm Sg alias_objects plain_classes pystr (fst cov) (snd cov) cover_image cover_names_ok cover_fields_ok2 cover_table_ok H). Qed.
 
 (* structures of the metamodel at the class of the same name *)
 Theorem mm_covered_roundtrip_structures (pystr : json -> string) : forall s st j,
   find_struct mm s = Some st -> String.eqb s "LSPObject" = false -> mem s (fst cov) = true -> cvalid mm (TRef s) j ->
   exists n' o j', structure Sg pystr n' (PyCls s) j = Ok o /\ has_type Sg (PyCls s) o /\ unstr Sg n' (Some (PyCls s)) o = Ok j' /\ RoundTrip.NEq j j'.
-Proof. exact (mm_roundtrip_structure mm Sg alias_objects plain_classes pystr (fst cov) (snd cov) cover_image cover_names_ok cover_fields_ok2 cover_table_ok cover_hooks_ok). Qed.
+Proof. pose proof cover_hooks_ok as H. rewrite <- nl_eq in H. exact (mm_roundtrip_structure mm Sg alias_objects plain_classes pystr (fst cov) (snd cov) cover_image cover_names_ok cover_fields_ok2 cover_table_ok H). Qed.
 
 (* (message envelopes are not images in the sense of smatch — their classes carry extra conventions (a params attribute even
    when the message has none, an unvalidated jsonrpc default) characterised by CatSpec for C09 — so the metamodel-level theorem is
@@ -70,12 +90,12 @@ Proof. split; vm_compute; reflexivity. Qed.
 Definition pos_fs : list fld := Eval vm_compute in match lookup_cls Sg "Position" with Some fs => fs | None => [] end.
 Definition pos_fld (k : string) : fld :=
   match find (fun f => String.eqb (fwire f) k) pos_fs with Some f => f | None => Build_fld "" "" "" PyAny NoDefault VNoVal false false end.
-Example cover_example_value : pvalid Sg (PyCls "Position") (JObj [("line", JInt 1); ("character", JInt 2)]).
+Example cover_example_value : pvalid Sg NLm (PyCls "Position") (JObj [("line", JInt 1); ("character", JInt 2)]).
 Proof.
-  apply (pv_cls Sg "Position" pos_fs); [vm_compute; reflexivity | repeat constructor; cbn; intuition discriminate | |].
+  apply (pv_cls Sg NLm "Position" pos_fs); [vm_compute; reflexivity | repeat constructor; cbn; intuition discriminate | |].
   - intros k v [E|[E|[]]]; inversion E; clear E;
       match goal with |- exists f, _ /\ fwire f = ?K /\ _ => exists (pos_fld K) end;
-      (split; [vm_compute; tauto | split; [reflexivity | split; [vm_compute; constructor | vm_compute; reflexivity]]]).
+      (split; [vm_compute; tauto | split; [reflexivity | split; [vm_compute; constructor | split; [vm_compute; reflexivity | discriminate]]]]).
   - intros f If M. vm_compute in If. destruct If as [<-|[<-|[]]]; vm_compute; tauto.
 Qed.
 
